@@ -23,7 +23,7 @@ ASSUMPTIONS = ["yasna encoders; x509-parser's decoding of requested extensions"]
 
 REFUSED = {
     "serial_number": "some(self.serial_number)",
-    "is_ca": "!eq(certificate::IsCa::NoCa{},self.is_ca)",
+    "is_ca": "!variant(self.is_ca,NoCa)",
     "name_constraints": "some(self.name_constraints)",
     "crl_distribution_points": "!empty(self.crl_distribution_points)",
     "use_authority_key_identifier_extension": "true(self.use_authority_key_identifier_extension)",
@@ -164,7 +164,9 @@ def check_back(cfg, crate, rep):
     uses_to = any(c == "KeyUsagePurpose::to_u16" for c, n, ps in common.calls_in(fb))
     rep.ob("C07.back", "%s|KeyUsagePurpose::from_u16" % cfg, vs == allv and len(allv) == 9 and uses_to, "from_u16 tests every variant with the writer's own to_u16 table", expected=sorted(allv), found=sorted(vs))
     # EKU flags -> variants
-    pairs = eku_pairs(b)
+    Ie = Interp(crate)
+    Ie.run_fn(fn)
+    pairs = common.eku_pairs_interp(Ie)
     want = {"any": "Any", "server_auth": "ServerAuth", "client_auth": "ClientAuth", "code_signing": "CodeSigning", "email_protection": "EmailProtection", "time_stamping": "TimeStamping", "ocsp_signing": "OcspSigning"}
     rep.ob("C07.back", "%s|%s|eku-flags" % (cfg, fn), pairs == want, "each standard EKU flag maps to the like-named variant", expected=want, found=pairs)
     # SAN via try_from_general
